@@ -250,6 +250,11 @@ structure FluidWF (chem ucomp : List String) (f : Fluid α) : Prop where
   props : ∀ u ∈ f.user_data, u.props.length = 13
   calcd : f.calc_delta ≠ 0
   groups : normGroups chem.length f.delta_groups = (f.calc_delta, f.delta_groups)
+  /-- guard of the division in `normGroups`: with group contributions on, no row of the array sums
+      to zero (the real code then yields 0/0; nothing is concluded from Lean's `x / 0 = 0`) -/
+  nozero : f.calc_delta = 1 → ∀ r ∈ f.delta_groups, isZero (Num.sum r) = false
+  chempos : 0 < chem.length
+  dglen : f.delta_groups.length = chem.length
 
 /-- attributes a particle class does not have are at their defaults -/
 def Canon (pt : Nat) (p : Particle α) : Prop :=
@@ -259,11 +264,17 @@ def Canon (pt : Nat) (p : Particle α) : Prop :=
 
 structure ParticleWF (pt : Nat) (chem ucomp : List String) (Ta : α) (p : Particle α) : Prop where
   dbm : match p.dbm with
-    | .fluid f => FluidWF chem ucomp f
+    | .fluid f => FluidWF chem ucomp f ∧ p.m0.length = chem.length
     | .insol _ => p.m0.length = 1
   canon : Canon pt p
   exit_pos : ∀ e, p.exit = some e → 0 < e.1
   heat : pt ≥ 1 → ¬ (0 < p.K_T ∧ Num.abs (Ta - p.T0) < 0.5)
+
+theorem bcast_self {β : Type} (n : Nat) (l : List β) (h : l.length = n) : bcast n l = l := by
+  simp [bcast, h]
+
+theorem nchemsOf_pos (chem : List String) (h : 0 < chem.length) : nchemsOf chem = chem.length := by
+  simp [nchemsOf, h]
 
 theorem take_map_length {β γ : Type} (l : List β) (g : β → γ) : (l.map g).take l.length = l.map g := by
   apply List.take_of_length_le; simp
@@ -353,7 +364,7 @@ theorem loadParticleT_mkTable (pt : Nat) (hpt : pt ≤ 2) (chem ucomp : List Str
     intro p hp f hf
     have := (hwf p hp).dbm
     rw [hf] at this
-    exact this.keys
+    exact this.1.keys
   have huc := userComposition_inv ucomp ps hk
   obtain ⟨wdbm, wcanon, wexit, wheat⟩ := wf
   obtain ⟨wc0, wc2⟩ := wcanon
@@ -385,7 +396,7 @@ theorem loadParticleT_mkTable (pt : Nat) (hpt : pt ≤ 2) (chem ucomp : List Str
     | nil => simp [truthy]
     | cons u us =>
       have hne : f.user_data ≠ [] := by rw [hud]; simp
-      have wff : FluidWF chem ucomp f := by rw [hf] at wdbm; exact wdbm
+      have wff : FluidWF chem ucomp f := by rw [hf] at wdbm; exact wdbm.1
       rcases huc with h | ⟨_, h⟩
       · rw [← hud]
         simp only [hud, List.isEmpty_cons, truthy, Bool.false_eq_true, if_false]
@@ -423,9 +434,14 @@ theorem loadParticleT_mkTable (pt : Nat) (hpt : pt ≤ 2) (chem ucomp : List Str
       simp [hexit, b2i, hm0, b2i_truthy, hK]
       exact hexit
   | fluid f =>
-    have wff : FluidWF chem ucomp f := by rw [hd] at wdbm; exact wdbm
+    have wff : FluidWF chem ucomp f := by rw [hd] at wdbm; exact wdbm.1
+    have hm0l : ps[i].m0.length = chem.length := by rw [hd] at wdbm; exact wdbm.2
     have hU := hdbm f hd
     have hcd : (f.calc_delta != 0) = true := by simpa using wff.calcd
+    have hnc := nchemsOf_pos chem wff.chempos
+    have hb1 : bcast (nchemsOf chem) (ps[i].m0.map some) = ps[i].m0.map some := bcast_self _ _ (by simp [hnc, hm0l])
+    have hb2 : bcast (nchemsOf chem) (f.delta_groups.map (·.map some)) = f.delta_groups.map (·.map some) :=
+      bcast_self _ _ (by simp [hnc, wff.dglen])
     rcases (by omega : pt = 0 ∨ pt = 1 ∨ pt = 2) with rfl | rfl | rfl
     ·
       obtain ⟨c1, c2⟩ := wc0 rfl
@@ -434,7 +450,7 @@ theorem loadParticleT_mkTable (pt : Nat) (hpt : pt ≤ 2) (chem ucomp : List Str
         hat2, hgetD, m0Row, hd, Particle.forget, ge_iff_le, Nat.le_refl, if_true, if_false,
         show ¬ ((0:Nat) ≥ 1) by decide, show ((2:Nat) ≥ 1) by decide, show ¬ ((0:Nat) = 2) by decide,
         show ¬ ((1:Nat) = 2) by decide, at1_map_get _ _ _ hi, valF_some, valI_some, truthy_some, hexit] at hU ⊢
-      simp only [hcd, if_true, map2_valF_some, map_valF_some, mkFluid, wff.groups]
+      simp only [dgBlock, hcd, if_true, hb1, hb2, map2_valF_some, map_valF_some, mkFluid, wff.groups] at hU ⊢
       rw [hU]
       simp [hexit, b2i, b2i_truthy, hU, wff.comp, c1, c2, d1, d2, d3, d4, d5, d6, d7, d8, d9]
     ·
@@ -444,7 +460,7 @@ theorem loadParticleT_mkTable (pt : Nat) (hpt : pt ≤ 2) (chem ucomp : List Str
         hat2, hgetD, m0Row, hd, Particle.forget, ge_iff_le, Nat.le_refl, if_true, if_false,
         show ¬ ((0:Nat) ≥ 1) by decide, show ((2:Nat) ≥ 1) by decide, show ¬ ((0:Nat) = 2) by decide,
         show ¬ ((1:Nat) = 2) by decide, at1_map_get _ _ _ hi, valF_some, valI_some, truthy_some, hexit] at hU ⊢
-      simp only [hcd, if_true, map2_valF_some, map_valF_some, mkFluid, wff.groups]
+      simp only [dgBlock, hcd, if_true, hb1, hb2, map2_valF_some, map_valF_some, mkFluid, wff.groups] at hU ⊢
       rw [hU]
       simp [hexit, b2i, b2i_truthy, hU, wff.comp, hK, d1, d2, d3, d4, d5, d6, d7, d8, d9]
     ·
@@ -453,7 +469,7 @@ theorem loadParticleT_mkTable (pt : Nat) (hpt : pt ≤ 2) (chem ucomp : List Str
         hat2, hgetD, m0Row, hd, Particle.forget, ge_iff_le, Nat.le_refl, if_true, if_false,
         show ¬ ((0:Nat) ≥ 1) by decide, show ((2:Nat) ≥ 1) by decide, show ¬ ((0:Nat) = 2) by decide,
         show ¬ ((1:Nat) = 2) by decide, at1_map_get _ _ _ hi, valF_some, valI_some, truthy_some, hexit] at hU ⊢
-      simp only [hcd, if_true, map2_valF_some, map_valF_some, mkFluid, wff.groups]
+      simp only [dgBlock, hcd, if_true, hb1, hb2, map2_valF_some, map_valF_some, mkFluid, wff.groups] at hU ⊢
       rw [hU]
       simp [hexit, b2i, b2i_truthy, hU, wff.comp, hK]
       exact hexit
@@ -680,6 +696,10 @@ theorem m0Row_forget (n : Nat) (p : Particle α) : m0Row n p.forget = m0Row n p 
 theorem m0Ok_forget (n : Nat) (p : Particle α) : m0Ok n p.forget = m0Ok n p := by
   cases hd : p.dbm <;> simp [m0Ok, Particle.forget, hd]
 
+theorem dgBlock_forget (n m : Nat) (f : Fluid α) :
+    dgBlock n m { f with delta := zeros f.composition.length f.composition.length,
+                         user_data := f.user_data.map UserChem.forget } = dgBlock n m f := rfl
+
 theorem userComposition_forget (ps : List (Particle α)) :
     userComposition (ps.map Particle.forget) = userComposition ps := by
   unfold userComposition
@@ -720,7 +740,7 @@ theorem mkTable_forget (pt : Nat) (chem : List String) (ps : List (Particle α))
   congr 1
   all_goals first
     | rfl
-    | (apply hdbm <;> intros <;> simp)
+    | (apply hdbm <;> intros <;> first | rfl | simp)
     | (apply map_forget_congr; intro p; first | rfl | exact m0Row_forget _ p)
     | (split <;> first | rfl | (apply map_forget_congr; intro p; rfl))
     | skip
@@ -931,6 +951,43 @@ theorem saveSpm_eq (h : Header) (s : Spm α) (f : File α) (hs : saveSpm h s = s
   unfold saveSpm at hs
   obtain ⟨tbl, h1, h2⟩ := Option.map_eq_some_iff.mp hs
   exact ⟨tbl, h1, h2.symm⟩
+
+end
+
+section
+variable [Num α]
+
+/-- a particle without the state a bent-plume particle carries (not part of its definition) -/
+def Particle.noState (p : Particle α) : Particle α :=
+  { p with integrate := false, tp := 0, xp := 0, yp := 0, zp := 0 }
+
+theorem lagReset_forget (st : List (PState α)) (ps : List (Particle α)) :
+    lagReset st (ps.map Particle.forget) = (lagReset st ps).map Particle.forget := by
+  induction ps generalizing st with
+  | nil => cases st <;> rfl
+  | cons p ps ih =>
+    cases st with
+    | nil => rfl
+    | cons s st => simp only [List.map_cons, lagReset, ih]; rfl
+
+/-- `LagElement.update` touches nothing but integrate, t, x, y, z -/
+theorem lagReset_noState (st : List (PState α)) (ps : List (Particle α)) :
+    (lagReset st ps).map Particle.noState = ps.map Particle.noState := by
+  induction ps generalizing st with
+  | nil => cases st <;> rfl
+  | cons p ps ih =>
+    cases st with
+    | nil => rfl
+    | cons s st => simp only [List.map_cons, lagReset, ih]; rfl
+
+theorem lagReset_K_T (st : List (PState α)) (ps : List (Particle α)) :
+    (lagReset st ps).map (·.K_T) = ps.map (·.K_T) := by
+  induction ps generalizing st with
+  | nil => cases st <;> rfl
+  | cons p ps ih =>
+    cases st with
+    | nil => rfl
+    | cons s st => simp only [List.map_cons, lagReset, ih]
 
 end
 
